@@ -50,6 +50,7 @@ static std::string jdstrips(const double *p, int n, int d){
     for(int i=0; i<n; i++){ if (i) s += ","; s += "["; for(int j=0; j<d; j++){ if (j) s += ","; s += jnum(p[i*d+j]); } s += "]"; }
     return s + "]";
 }
+static std::string jdvec(std::vector<double> const &v){ std::string s = "["; for(size_t i=0; i<v.size(); i++){ if (i) s += ","; s += jnum(v[i]); } return s + "]"; }
 static std::string jbool(bool b){ return b ? "true" : "false"; }
 static std::string jstr(std::string const &s){ std::string r = "\""; for(char c : s){ if (c == '"' || c == '\\') r += '\\'; if (c == '\n') r += ' '; else r += c; } return r + "\""; }
 
@@ -170,7 +171,7 @@ static std::string project(TasmanianSparseGrid const &g){
     s += ",\"con\":" + jbool(g.isUsingConstruction());
     if (g.isSetDomainTransfrom()){
         std::vector<double> a, b; g.getDomainTransform(a, b);
-        s += ",\"ta\":" + jdstrips(a.data(), 1, (int) a.size()) + ",\"tb\":" + jdstrips(b.data(), 1, (int) b.size());
+        s += ",\"ta\":" + jdvec(a) + ",\"tb\":" + jdvec(b);
     }else s += ",\"ta\":[],\"tb\":[]";
     s += ",\"conf\":" + (g.isSetConformalTransformASIN() ? jivec(g.getConformalTransformASIN()) : std::string("[]"));
     s += ",\"alpha\":" + jnum(g.getAlpha()) + ",\"beta\":" + jnum(g.getBeta());
@@ -355,8 +356,10 @@ static std::string obs_roundtrip(TasmanianSparseGrid const &g, unsigned seed){
     return s + "}";
 }
 
-// normalised hierarchical coefficient ratios per loaded point (observer for surplus refinement), scaled by 1e9
+// normalised hierarchical coefficient ratios per loaded point (observer for surplus refinement), scaled by 1e8
+static bool ratios_degenerate = false;
 static std::vector<long long> ratios(TasmanianSparseGrid const &g, int output, std::vector<double> const &scale){
+    ratios_degenerate = false;
     int nl = g.getNumLoaded(), outs = g.getNumOutputs();
     std::vector<long long> r((size_t) nl, 0);
     if (nl == 0 || outs == 0) return r;
@@ -364,6 +367,7 @@ static std::vector<long long> ratios(TasmanianSparseGrid const &g, int output, s
     std::vector<double> norm((size_t) outs, 0.0);
     for(int i=0; i<nl; i++) for(int k=0; k<outs; k++) norm[(size_t) k] = std::max(norm[(size_t) k], std::fabs(v[(size_t) i * outs + k]));
     int act = (output == -1) ? outs : 1;
+    for(int k=0; k<outs; k++) if ((output == -1 || k == output) && norm[(size_t) k] == 0.0) ratios_degenerate = true; // all values zero: 0/0
     for(int i=0; i<nl; i++){
         double m = 0.0;
         for(int k=0; k<outs; k++){
@@ -372,7 +376,7 @@ static std::vector<long long> ratios(TasmanianSparseGrid const &g, int output, s
             double q = sc * std::fabs(c[(size_t) i * outs + k]) / norm[(size_t) k];
             m = std::max(m, q);
         }
-        r[(size_t) i] = (long long) std::llround(std::min(m, 2.0) * 1.0e9);
+        r[(size_t) i] = (long long) std::llround(std::min(m, 20.0) * 1.0e8);   // quantised to 1e-8, capped below 2^31
     }
     return r;
 }
@@ -430,6 +434,7 @@ int main(int argc, char **argv){
         std::istringstream ls(line);
         std::string cmd; ls >> cmd;
         if (cmd == "SCEN"){
+            if (scen > 0) fprintf(out, "{\"e\":\"End\"}\n");
             std::string label; ls >> label; scen++; step = 0;
             for(auto &s : slots) s.g = TasmanianSparseGrid();
             fprintf(out, "{\"e\":\"Reset\",\"scen\":%s}\n", jstr(label).c_str());
@@ -488,7 +493,7 @@ int main(int argc, char **argv){
                     else g.makeWaveletGrid(d, outs, depth, order, ll);
                 }
             }else if (cmd == "transform"){
-                auto a = rddvec(ls), b = rddvec(ls); A("a", jdstrips(a.data(), 1, (int) a.size())); A("b", jdstrips(b.data(), 1, (int) b.size()));
+                auto a = rddvec(ls), b = rddvec(ls); A("a", jdvec(a)); A("b", jdvec(b));
                 g.setDomainTransform(a, b);
             }else if (cmd == "cleartransform"){ g.clearDomainTransform();
             }else if (cmd == "conformal"){ auto t = rdivec(ls); A("t", jivec(t)); g.setConformalTransformASIN(t);
@@ -496,6 +501,7 @@ int main(int argc, char **argv){
             }else if (cmd == "clearlimits"){ g.clearLevelLimits();
             }else if (cmd == "load"){
                 int epoch; ls >> epoch; A("epoch", jint(epoch));
+                if (!g.empty() && g.getNumPoints() == 0 && g.getNumNeeded() == 0) throw std::string("skipped");   // a grid without any point (construction finished before any delivery): nothing to load, call not made
                 int nn = g.getNumNeeded();
                 const int *idx = (nn > 0) ? g.verifNeededIndexes() : g.verifLoadedIndexes();
                 int n = (nn > 0) ? nn : g.getNumPoints();
@@ -532,11 +538,11 @@ int main(int argc, char **argv){
                 sorted.erase(std::unique(sorted.begin(), sorted.end()), sorted.end());
                 double tol;
                 if (rank < 0) tol = 0.0;
-                else if (sorted.empty() || rank == 0) tol = 3.0;
-                else if ((size_t) rank >= sorted.size()) tol = ((double) sorted.back()) * 0.5e-9 + 1.0e-13;
-                else tol = 0.5e-9 * ((double) sorted[(size_t) rank - 1] + (double) sorted[(size_t) rank]);
+                else if (sorted.empty() || rank == 0) tol = 21.0;
+                else if ((size_t) rank >= sorted.size()) tol = ((double) sorted.back()) * 0.5e-8 + 1.0e-13;
+                else tol = 0.5e-8 * ((double) sorted[(size_t) rank - 1] + (double) sorted[(size_t) rank]);
                 A("output", jint(output)); A("crit", jstr(crit)); A("ll", jivec(ll)); A("smode", jint(smode));
-                A("tol9", jint((long long) std::llround(tol * 1.0e9))); A("tolzero", jbool(tol == 0.0));
+                A("tolq", jint((long long) std::llround(tol * 1.0e8))); A("tolzero", jbool(tol == 0.0)); A("degenerate", jbool(ratios_degenerate));
                 std::string rs = "["; for(size_t i=0; i<r.size(); i++){ if (i) rs += ","; rs += std::to_string(r[i]); } rs += "]";
                 A("ratios", rs);
                 if (!finishes_in_time([&](){ TasmanianSparseGrid t(g);
@@ -565,11 +571,11 @@ int main(int argc, char **argv){
                     std::vector<long long> sorted = r; std::sort(sorted.begin(), sorted.end(), std::greater<long long>());
                     sorted.erase(std::unique(sorted.begin(), sorted.end()), sorted.end());
                     double tol;
-                    if (rank < 0) tol = 0.0; else if (sorted.empty() || rank == 0) tol = 3.0;
-                    else if ((size_t) rank >= sorted.size()) tol = ((double) sorted.back()) * 0.5e-9 + 1.0e-13;
-                    else tol = 0.5e-9 * ((double) sorted[(size_t) rank - 1] + (double) sorted[(size_t) rank]);
+                    if (rank < 0) tol = 0.0; else if (sorted.empty() || rank == 0) tol = 21.0;
+                    else if ((size_t) rank >= sorted.size()) tol = ((double) sorted.back()) * 0.5e-8 + 1.0e-13;
+                    else tol = 0.5e-8 * ((double) sorted[(size_t) rank - 1] + (double) sorted[(size_t) rank]);
                     A("output", jint(output)); A("crit", jstr(crit)); A("ll", jivec(ll));
-                    A("tol9", jint((long long) std::llround(tol * 1.0e9))); A("tolzero", jbool(tol == 0.0));
+                    A("tolq", jint((long long) std::llround(tol * 1.0e8))); A("tolzero", jbool(tol == 0.0)); A("degenerate", jbool(ratios_degenerate));
                     std::string rs = "["; for(size_t i=0; i<r.size(); i++){ if (i) rs += ","; rs += std::to_string(r[i]); } rs += "]";
                     A("ratios", rs);
                     x = g.getCandidateConstructionPoints(tol, IO::getTypeRefinementString(crit), output, ll);
@@ -612,8 +618,8 @@ int main(int argc, char **argv){
                 auto r = ratios(g, output, std::vector<double>());
                 std::vector<long long> sorted = r; std::sort(sorted.begin(), sorted.end(), std::greater<long long>());
                 sorted.erase(std::unique(sorted.begin(), sorted.end()), sorted.end());
-                double tol = (rank <= 0 || sorted.empty()) ? 3.0 : ((size_t) rank >= sorted.size() ? 0.5e-9 * (double) sorted.back() : 0.5e-9 * ((double) sorted[(size_t) rank - 1] + (double) sorted[(size_t) rank]));
-                A("output", jint(output)); A("tol9", jint((long long) std::llround(tol * 1.0e9)));
+                double tol = (rank <= 0 || sorted.empty()) ? 21.0 : ((size_t) rank >= sorted.size() ? 0.5e-8 * (double) sorted.back() : 0.5e-8 * ((double) sorted[(size_t) rank - 1] + (double) sorted[(size_t) rank]));
+                A("output", jint(output)); A("tolq", jint((long long) std::llround(tol * 1.0e8)));
                 std::string rs = "["; for(size_t i=0; i<r.size(); i++){ if (i) rs += ","; rs += std::to_string(r[i]); } rs += "]";
                 A("ratios", rs);
                 g.removePointsByHierarchicalCoefficient(tol, output);
@@ -709,6 +715,7 @@ int main(int argc, char **argv){
                 project(slots[1].g).c_str(), project(slots[2].g).c_str(), obs.c_str(), extra.c_str());
         fflush(out);
     }
+    if (scen > 0) fprintf(out, "{\"e\":\"End\"}\n");
     fclose(out);
     return 0;
 }
